@@ -584,8 +584,8 @@ HEAVY = {"bignSign", "bignSign2", "bignKeypairGen", "bignPubkeyCalc", "bignDH", 
 _BAKE_ENV = {}
 
 
-def _bake_run(proto, side, bad=False):
-    name = "bake%sRun%s" % (proto, side) + (":badtag" if bad else "")
+def _bake_run(proto, side, bad=False, longcert=False):
+    name = "bake%sRun%s" % (proto, side) + (":badtag" if bad else "") + (":longcert" if longcert else "")
 
     def build(lib, rng, size):
         from . import c04
@@ -605,6 +605,9 @@ def _bake_run(proto, side, bad=False):
             cfg = c04.base_cfg(proto, l, 1, 1, n, ks=rng.getrandbits(30))
             pwd = rb(rng, max(8, min(size, 40)))
             cfg["pwd"] = pwd.hex()
+            if longcert:
+                # certificates long enough for M2 / M3 to need several 512-octet reads and a blobResize across a blob page
+                cfg["cpad"] = {"A": 1100, "B": 1300}
             h, ra, rbb = c04.run_pipe(env, cfg)
             if ra != 0 or rbb != 0 or c04._CB_ERR:
                 raise Harness("honest %s run failed while recording the transcript (%r %r %r)" % (proto, ra, rbb, c04._CB_ERR))
@@ -613,7 +616,7 @@ def _bake_run(proto, side, bad=False):
                 replies[-1] = replies[-1][:-1] + bytes([replies[-1][-1] ^ 0x40])
             P = c04.build(env, cfg)
             me = P[side]
-            key, wbuf = lib.alloc(32), lib.alloc(1024, 0)
+            key, wbuf = lib.alloc(32), lib.alloc(4096 if longcert else 1024, 0)
             f = lib.mk(mine.to_bytes(8, "little"))
             pipe = c04.Pipe(c04.SENDS[proto], lambda nm, d: d)
             for m in replies:
@@ -637,10 +640,10 @@ def _bake_run(proto, side, bad=False):
                 q = pipe.inbox[1 - mine]
                 while not q.empty():
                     out += q.get()
-                lib.wr(wbuf, out[:1024])
+                lib.wr(wbuf, out[:lib.sizes[wbuf]])
                 return ret
             v.args = [thunk]
-            v.outs = [(key, 32), (wbuf, 1024)]
+            v.outs = [(key, 32), (wbuf, lib.sizes[wbuf])]
             d = env.keypair(l, side, cfg["ks"])[0]
             own, peer = c04.cert_data(env, cfg, side), c04.cert_data(env, cfg, "B" if side == "A" else "A", side)
             v.pub = list(replies) + [own, peer, cur["raw"]]
@@ -660,6 +663,9 @@ for _pr in ("BMQV", "BSTS", "BPACE"):
         BUILDERS["bake%sRun%s:badtag" % (_pr, _sd)] = _bake_run(_pr, _sd, True)
         HEAVY.add("bake%sRun%s" % (_pr, _sd))
         HEAVY.add("bake%sRun%s:badtag" % (_pr, _sd))
+for _sd in ("A", "B"):
+    BUILDERS["bakeBSTSRun%s:longcert" % _sd] = _bake_run("BSTS", _sd, False, True)
+    HEAVY.add("bakeBSTSRun%s:longcert" % _sd)
 
 
 # ===============================================================================================================
